@@ -62,6 +62,7 @@ var commands = map[string]command{
 	"clientsend-replay":   clientsendReplay,
 	"patcharray-replay":   patcharrayReplay,
 	"chain-replay":        chainReplay,
+	"client-trace":        clientTrace,
 	"client-replay":       clientReplay,
 	"transform-replay":    transformReplay,
 	"longform-replay":     longformReplay,
